@@ -1,7 +1,7 @@
 SPECIFICATION Spec
 CONSTANTS NRules = 2  K = 2  MaxQ = 3
   MutKeyNoPort = FALSE  MutKeyNoProto = FALSE  MutKeyNoV6 = TRUE  MutSuffixNoDot = FALSE  MutPortHi = FALSE
-  RulePool <- PoolQ  QueryPool <- QueriesQ
+  RulePool <- PoolQ  QueryPool <- Queries
 INVARIANT NoViolation
 VIEW View
 CHECK_DEADLOCK FALSE
